@@ -260,6 +260,74 @@ def views(run, rng, ncases):
     run.oblige("views_after_update_equal_fresh", bad == 0, "correspondence")
 
 
+def independence(run, rng, ncases):
+    """histories: a derived object with its OWN gate objects (deep copy, inverse) is updated -> every view
+    of the source still equals a freshly built circuit with the source's values; then the source is
+    updated -> the derived object's operator does not move."""
+    from qibo import Circuit, gates
+    bad = 0
+    kinds = {"RX": (1, 1), "RY": (1, 1), "RZ": (1, 1), "U3": (1, 3), "fSim": (2, 2), "CRX": (2, 1), "PRX": (1, 2), "GPI2": (1, 1),
+             "GPI": (1, 1), "U1q": (1, 2), "RXX": (2, 1), "RZX": (2, 1), "MS": (2, 3), "GIVENS": (2, 1), "RBS": (2, 1), "CU2": (2, 2),
+             "CU3": (2, 3), "U2": (1, 2), "U1": (1, 1), "CU1": (2, 1), "RXXYY": (2, 1), "H": (1, 0), "CNOT": (2, 0)}
+
+    def views_of(c, nq):
+        out = {"unitary": np.asarray(c.unitary()), "invert": np.asarray(c.invert().unitary()),
+               "copy_deep": np.asarray(c.copy(deep=True).unitary()),
+               "dagger_each": np.concatenate([np.asarray(g.dagger().matrix()).ravel() for g in c.queue])}
+        big = Circuit(nq + 1)
+        big.add(c.on_qubits(*range(1, nq + 1)))
+        out["on_qubits"] = np.asarray(big.unitary())
+        return out
+    for ci in range(ncases):
+        nq = rng.randint(2, 3)
+        spec = []
+        for _ in range(rng.randint(2, 6)):
+            k = rng.choice(sorted(kinds))
+            arity, npar = kinds[k]
+            spec.append((k, rng.sample(range(nq), arity), npar))
+
+        def build(values):
+            c = Circuit(nq)
+            it = iter(values)
+            for k, qs, npar in spec:
+                ps = [next(it) for _ in range(npar)]
+                c.add(getattr(gates, k)(*qs, *ps) if npar else getattr(gates, k)(*qs))
+            return c
+        ntot = sum(sp[2] for sp in spec)
+        if not ntot:
+            continue
+        draw = lambda: [round(rng.uniform(0.1, 0.7), 3) for _ in range(ntot)]   # MS needs theta <= pi/2
+        old, newd, newc = draw(), draw(), draw()
+        how = rng.choice(["copy_deep", "invert"])
+        stage, d, err, which = "derive", 0.0, None, None
+        try:
+            c = build(old)
+            der = c.copy(deep=True) if how == "copy_deep" else c.invert()
+            stage = "update_derived"
+            der.set_parameters(newd)          # flat list; the inverse has the same number of parameters
+            got, want = views_of(c, nq), views_of(build(old), nq)
+            for v in want:
+                dv = float(np.abs(got[v] - want[v]).max())
+                if dv > d:
+                    d, which = dv, v
+            if d <= 1e-12:
+                stage = "update_source"
+                before = np.asarray(der.unitary())
+                c.set_parameters(newc)
+                d = float(np.abs(np.asarray(der.unitary()) - before).max())
+                which = "derived_unitary"
+        except Exception as e:  # noqa: BLE001
+            d, err = float("inf"), f"{type(e).__name__}: {e}"
+        run.case(["independence", how, [sp[0] for sp in spec]])
+        if d > 1e-12:
+            bad += 1
+            run.find(f"shared_state:{how}:{stage}:" + "+".join(sorted({sp[0] for sp in spec if sp[2]})),
+                     f"{how} of a circuit does not have its own parameters: after {stage} the view '{which}' of the "
+                     f"{'source' if stage == 'update_derived' else 'derived circuit'} moved by {d}" + (f" ({err})" if err else ""),
+                     {"spec": spec, "old": old, "new_derived": newd, "new_source": newc, "how": how, "stage": stage, "view": which, "diff": d})
+    run.oblige("derived_circuits_have_their_own_parameters", bad == 0, "correspondence")
+
+
 # --------------------------------------------------------------------------- parameter shift
 def shift_obligations(run, rng):
     items = []
@@ -453,6 +521,7 @@ def main(run):
     q = run.tier == "quick"
     bookkeeping(run, rng, 150 if q else 1500)
     views(run, rng, 120 if q else 1500)
+    independence(run, random.Random(run.seed + 77), 80 if q else 800)
     shift_obligations(run, rng)
     shift_implementation(run, rng, 25 if q else 300)
     probes(run, rng)
